@@ -70,6 +70,7 @@ enum Probe {
   PR_realloc_inplace, PR_realloc_moved, PR_zero_checked, PR_visit_checked, PR_alloc_null,
   PR_os_refused, PR_arena_alloc, PR_os_segment_alloc, PR_thread_data_cache_hit, PR_use_delayed_spin,
   PR_segment_purge_by_time, PR_arena_purge_by_time, PR_misuse_detected, PR_census, PR_giveback_checked,
+  PR_hugetlb_mmap, PR_hugetlb_madvise, PR_pinned_arena,
   PR__COUNT
 };
 extern const char* const probe_names[PR__COUNT];
@@ -103,6 +104,7 @@ struct SimConfig {
   double   place_unaligned_p = 0.0; // with policy 1: probability per un-hinted/hint-ignored map
   int      madv_free_mode = 0;   // 0 keep, 1 discard, 2 random per call, 3 EINVAL (unsupported)
   int      thp_einval = 0;
+  int      hugetlb = 0;          // explicit huge pages (mmap MAP_HUGETLB): 0 none configured (ENOMEM), 1: 2 MiB pages, 2: 2 MiB and 1 GiB pages
   int      entropy_fail = 0;     // 1: getrandom ENOSYS and /dev/urandom unavailable
   bool     trace = false;
   double   wall_limit_s = 30.0;
@@ -131,6 +133,7 @@ void     sched_join(int vt_index);                                   // blocks u
 bool     sched_is_done(int vt_index);
 void     sched_barrier(int barrier_id, int parties);                 // blocks until `parties` vthreads arrived
 extern const char* g_sim_build_name;                                // "REL", "SEC", "DBG" or "UBS" (set by the harness)
+bool os_is_hugetlb(uint64_t addr);                                  // inside a mapping made of explicit huge pages (pinned: always resident)
 bool     sched_wait(uint64_t key);                                   // harness-level wait for sched_notify(key); false = gave up because nothing else could run
 void     sched_notify(uint64_t key);
 void     sched_os_point(int kind);                                   // preemption point right before a simulated OS call takes effect
